@@ -108,7 +108,7 @@ fn c25_o1_a_rt_empty_list() {
 }
 #[kani::proof]
 #[kani::unwind(12)]
-fn c25_o1_a_rt_empty_map() {
+fn c25_o1_q_rt_empty_map() {
     let v = PropertyValue::Map(BTreeMap::new());
     let ok = roundtrip_ok(&v);
     std::mem::forget(v);
